@@ -7,6 +7,7 @@ generic element).  `try` contributes its normal path, one path per handler (ente
 pre-try state) and one exceptional path through `finally`.
 """
 import ast
+import copy
 
 from . import contracts
 from .terms import (NONE, const, is_const, is_int, is_seq, plain_seq, fold_bin, mk_sub, canon, walk, show)
@@ -330,7 +331,12 @@ class Evaluator:
                 tmpl += str(v.value).replace("{", "{{").replace("}", "}}")
             else:
                 tmpl += "{}"
-                args.append(self.ev(v.value, st))
+                a = self.ev(v.value, st)
+                if getattr(v, "conversion", -1) == ord("r"):
+                    a = ("call", ("glob", "builtins.repr"), (a,), (), 0)        # f"{x!r}" is "{}".format(repr(x))
+                elif getattr(v, "conversion", -1) == ord("s"):
+                    a = ("call", ("glob", "builtins.str"), (a,), (), 0)
+                args.append(a)
         if not args:
             return const(tmpl)
         return ("fmt", const(tmpl), tuple(args))
@@ -583,6 +589,15 @@ class Evaluator:
             return None
         return g
 
+    def _is_function_ref(self, st):
+        def pred(n):
+            if isinstance(n, ast.Name) and n.id not in st.env:
+                return self.pkg.resolve_name(self.module, n.id) in self.pkg.functions
+            if isinstance(n, ast.Attribute) and isinstance(n.value, ast.Name) and n.value.id == "self" and self.fn.cls is not None:
+                return self.pkg.find_method(self.fn.cls.qual, n.attr) is not None
+            return False
+        return pred
+
     def inline(self, g, call, st):
         """run the body of helper `g` in place of the call: generator of (state, value term | None, exit) where exit is a raise exit
         or None; the caller's environment is restored in every resulting state"""
@@ -649,21 +664,26 @@ class Evaluator:
                                 self.bind(t, val, st2, s)
                         yield st2, None
                 return
-        if isinstance(s, (ast.Assign, ast.Return)) and isinstance(s.value, ast.IfExp) and any(isinstance(x, ast.Call) for arm in (s.value.body, s.value.orelse) for x in ast.walk(arm)):
-            c = self.ev(s.value.test, st)
-            v = lookup(st.decided, c)
-            arms = [(True, s.value.body), (False, s.value.orelse)] if v is None else [(v, s.value.body if v else s.value.orelse)]
-            if len(arms) == 2 and _strip_not(c)[1]:
-                arms.reverse()
-            for i, (val, arm) in enumerate(arms):
-                st2 = st.fork() if i < len(arms) - 1 else st
-                assume(st2.decided, c, val)
-                lc, lv = literal(c, val)
-                st2.conds.append((lc, lv))
-                self.emit(st2, "cond", (lc, lv), s)
-                one = ast.copy_location(ast.Assign(targets=s.targets, value=arm), s) if isinstance(s, ast.Assign) else ast.copy_location(ast.Return(value=arm), s)
-                yield from self.stmt(one, st2)
-            return
+        if isinstance(s, (ast.Assign, ast.Return, ast.Expr, ast.AugAssign)) and getattr(s, "value", None) is not None:
+            # a conditional expression anywhere in the statement (outside lambdas / comprehensions) whose arms make calls splits the path like
+            # an if statement: `f(a if c else g(a))` is `if c: f(a) else: f(g(a))`; calls of the arm that is not taken are not recorded
+            hit = _first_ifexp(s.value, self._is_function_ref(st))
+            if hit is not None:
+                c = self.ev(hit.test, st)
+                v = lookup(st.decided, c)
+                arms = [(True, hit.body), (False, hit.orelse)] if v is None else [(v, hit.body if v else hit.orelse)]
+                if len(arms) == 2 and _strip_not(c)[1]:
+                    arms.reverse()
+                for i, (val, arm) in enumerate(arms):
+                    st2 = st.fork() if i < len(arms) - 1 else st
+                    assume(st2.decided, c, val)
+                    lc, lv = literal(c, val)
+                    st2.conds.append((lc, lv))
+                    self.emit(st2, "cond", (lc, lv), s)
+                    one = copy.copy(s)
+                    one.value = _replace_node(s.value, hit, arm)
+                    yield from self.stmt(one, st2)
+                return
         if isinstance(s, ast.Expr):
             if isinstance(s.value, ast.Constant):
                 yield st, None
@@ -744,6 +764,10 @@ class Evaluator:
                 st2.conds.append((lc, lv))
                 self.emit(st2, "cond", (lc, lv), s)
                 yield from self.run(body, st2)
+        elif isinstance(s, ast.Continue):
+            yield st, ("continue", NONE, s.lineno)
+        elif isinstance(s, ast.Break):
+            yield st, ("break", NONE, s.lineno)
         elif isinstance(s, ast.For):
             yield from self.for_(s, st)
         elif isinstance(s, ast.Try):
@@ -769,17 +793,20 @@ class Evaluator:
             raise Unsupported("statement " + type(s).__name__)
 
     def for_(self, s, st):
-        if s.orelse:
-            raise Unsupported("for-else")
+        # `continue` ends the iteration, `break` ends the loop without running its else clause; other exits (return / raise) leave the function
         it = self.expand(self.ev(s.iter, st))
         if plain_seq(it) and len(it[1]) <= 8:
             def unroll(k, st_k):
                 if k == len(it[1]):
-                    yield st_k, None
+                    yield from self.run(s.orelse, st_k)
                     return
                 self.bind(s.target, it[1][k], st_k, s)
                 for st3, ex in self.run(s.body, st_k):
-                    if ex is not None:
+                    if ex is not None and ex[0] == "continue":
+                        yield from unroll(k + 1, st3)
+                    elif ex is not None and ex[0] == "break":
+                        yield st3, None
+                    elif ex is not None:
                         yield st3, ex
                     else:
                         yield from unroll(k + 1, st3)
@@ -808,7 +835,8 @@ class Evaluator:
         self.emit(st, "loop-enter", (lid, it), s)
         self.bind(s.target, ("elem", it, lid), st, s)
         for st3, ex in self.run(s.body, st):
-            if ex is not None:
+            broke = ex is not None and ex[0] == "break"
+            if ex is not None and ex[0] not in ("continue", "break"):
                 yield st3, ex
                 continue
             for nm in carried:
@@ -826,7 +854,10 @@ class Evaluator:
                         elt = new[0] if len(new) == 1 else ("tuple", new)
                         st3.env[nm] = ("list", old[1] + (("star", ("comp", "list", elt, it, lid, ())),))
             self.emit(st3, "loop-exit", (lid,), s)
-            yield st3, None
+            if s.orelse and not broke:
+                yield from self.run(s.orelse, st3)
+            else:
+                yield st3, None
 
     def try_(self, s, st):
         tid = ("T", s.lineno and len([e for e in st.events if e.kind == "try-enter"]))
@@ -865,6 +896,46 @@ class Evaluator:
             self.emit(stp, "exception", (tid,), s)
             for st3, ex3 in finish(stp, ("raise", const("<propagated>"), s.lineno)):
                 yield st3, ex3
+
+
+def _first_ifexp(expr, is_function_ref=lambda n: False):
+    """the first conditional expression in `expr` (not inside a lambda or comprehension) one of whose arms contains a call - or both of
+    whose arms name a function (`kernel = predict_numba if fast else predict_numpy`: the later kernel(...) is then a call of ONE function
+    on each path)"""
+    todo = [expr]
+    while todo:
+        n = todo.pop(0)
+        if isinstance(n, (ast.Lambda, ast.ListComp, ast.SetComp, ast.DictComp, ast.GeneratorExp)):
+            continue
+        if isinstance(n, ast.IfExp) and (any(isinstance(x, ast.Call) for arm in (n.body, n.orelse) for x in ast.walk(arm)) or (is_function_ref(n.body) and is_function_ref(n.orelse))):
+            return n
+        todo.extend(ast.iter_child_nodes(n))
+    return None
+
+
+def _replace_node(root, old, new):
+    if root is old:
+        return new
+
+    class T(ast.NodeTransformer):
+        def visit(self, node):
+            if node is old:
+                return new
+            return self.generic_visit(node)
+    return T().visit(copy.deepcopy(root) if False else _shallow_copy_tree(root, old))
+
+
+def _shallow_copy_tree(root, keep):
+    """copy of the tree in which the node `keep` is kept by identity (so that it can be found and replaced)"""
+    if root is keep:
+        return root
+    new = copy.copy(root)
+    for f, v in ast.iter_fields(root):
+        if isinstance(v, ast.AST):
+            setattr(new, f, _shallow_copy_tree(v, keep))
+        elif isinstance(v, list):
+            setattr(new, f, [_shallow_copy_tree(x, keep) if isinstance(x, ast.AST) else x for x in v])
+    return new
 
 
 def _as_load(target):
